@@ -66,11 +66,13 @@ replay)
 quick|thorough)
     TIER=$1
     build_tsim
-    EV="$ROOT/evidence/C16.json"; rm -f "$EV"
-    T1=$(mktemp "$H/target/ev.XXXXXX")
+    # evidence is assembled under harness/target and moved into place at the end (a snapshot of /verif taken while
+    # the check runs never sees a missing or half-written file); after a harness error no evidence is left behind
+    EV="$ROOT/evidence/C16.json"
+    T1=$(mktemp "$H/target/ev.XXXXXX"); T2=$(mktemp "$H/target/evfinal.XXXXXX")
     (ulimit -v 16777216 2>/dev/null; "$TSIM" check --tier "$TIER" --evidence "$T1" --replays "$ROOT/replays" ${C16_TSIM_ITERATIONS:+--iterations "$C16_TSIM_ITERATIONS"})
     rc=$?
-    [ $rc -ge 2 ] && { rm -f "$T1"; exit 2; }
+    [ $rc -ge 2 ] && { rm -f "$T1" "$T2" "$EV"; exit 2; }
     miri_json='{"ran": false, "reason": "Miri layer runs in the thorough tier only (1.5-5 min per seed)"}'
     mrc=0
     if [ "$TIER" = "thorough" ] && [ $rc -eq 0 ]; then
@@ -94,7 +96,8 @@ quick|thorough)
         miri_json=$(jq -n --arg e "$r1" --arg d "$r2" --argjson secs $((t1-t0)) \
             '{ran:true, encode_race:$e, decode_race_with_handover:$d, wall_s:$secs, flags:"-Zmiri-many-seeds -Zmiri-preemption-rate=0.1", detects:"data races, UB, deadlock, panics; real std::sync::LazyLock, real threads, no hooks; Naive engine, 2-byte shards"}')
     fi
-    jq --argjson miri "$miri_json" '.coverage.miri_layer = $miri' "$T1" > "$EV" || { echo "harness error: evidence"; exit 2; }
+    jq --argjson miri "$miri_json" '.coverage.miri_layer = $miri' "$T1" > "$T2" || { echo "harness error: evidence"; rm -f "$T1" "$T2" "$EV"; exit 2; }
+    chmod 644 "$T2"; mv -f "$T2" "$EV"
     rm -f "$T1"
     if [ $rc -eq 1 ] || [ $mrc -eq 1 ]; then exit 1; fi
     exit 0 ;;
